@@ -89,8 +89,13 @@ KeySets ==
          << DownloadScript("e1", 1, << SegA, SegB >>, IsoLen, 1), DownloadScript("e1", 1, << SegAB >>, IsoLen, 2) >>,
          << DownloadScript("e1", 1, << SegA >>, IsoLen, 1), UploadScript("e1", 1, << SegA, SegB >>, IsoLen, 2) >>,
          << UploadScript("e1", 3, << SegA, SegB >>, 3, 1), UploadScript("e2", 3, << SegA, SegB >>, 3, 2), DownloadScript("e1", 3, << SegAB >>, 3, 3) >>,
-         << DownloadScript("e1", 1, << SegA, SegB >>, 3, 1), DownloadScript("e1", 5, << SegA, SegB >>, 3, 2), UploadScript("e2", 1, << SegA >>, 3, 3) >> }
+         << DownloadScript("e1", 1, << SegA, SegB >>, 3, 1), DownloadScript("e1", 5, << SegA, SegB >>, 3, 2), UploadScript("e2", 1, << SegA >>, 3, 3) >>,
+         << DownloadScript("e1", 1, << SegA >>, IsoLen, 1), DownloadScript("e1", 1, << SegA, << >> >>, IsoLen, 2) >>,
+         << UploadScript("e1", 3, << SegA >>, IsoLen, 1), UploadScript("e1", 3, << << >>, SegA >>, IsoLen, 2) >> }
   ELSE { << UploadScript("e1", 3, << SegA, SegB >>, IsoLen, 1), UploadScript("e2", 3, << SegA, SegB >>, IsoLen, 2) >>,
+         \* paths that differ only by a trailing / leading empty segment
+         << DownloadScript("e1", 1, << SegA >>, IsoLen, 1), DownloadScript("e1", 1, << SegA, << >> >>, IsoLen, 2) >>,
+         << UploadScript("e1", 3, << SegA >>, IsoLen, 1), UploadScript("e1", 3, << << >>, SegA >>, IsoLen, 2) >>,
          << DownloadScript("e1", 1, << SegA, SegB >>, IsoLen, 1), DownloadScript("e1", 1, << SegAB >>, IsoLen, 2) >>,
          << UploadScript("e1", 3, << SegA, SegB >>, IsoLen, 1), DownloadScript("e1", 2, << SegA, SegB >>, IsoLen, 2) >>,
          << DownloadScript("e1", 1, << SegA >>, 3, 1), DownloadScript("e1", 5, << SegA >>, 3, 2), UploadScript("e2", 1, << SegA >>, 3, 3) >> }
